@@ -765,6 +765,7 @@ func TestC14(t *testing.T) {
 	rec.SetExtra("n_targets", len(targets))
 	rec.SetExtra("n_sweep_cases", len(sweep))
 	const par = 8
+	nViol := 0
 	for i := 0; i < len(sweep); i += par {
 		j := i + par
 		if j > len(sweep) {
@@ -774,7 +775,13 @@ func TestC14(t *testing.T) {
 			record(sweep[i+k], res)
 			if res.Verdict == "violation" {
 				rec.Violation(res.Key, res.What, res.Obj)
+				nViol++
 			}
+		}
+		if nViol >= 3 {
+			// enough replays; a failing stall case costs 50T+5s, do not spend the budget on more
+			rec.Class("sweep_stopped_after_3_violations")
+			return
 		}
 	}
 
